@@ -200,7 +200,7 @@ func (engine) Generate(r *lib.Rng, tier string, i int) any {
 	c.Stream = r.Chance(1, 4)
 	// error path: one critical section updates the state and then returns an error (the run
 	// must fail, the lock must be released: sibling nodes still get the state)
-	if r.Chance(1, 20) {
+	if r.Chance(1, 12) {
 		type sec struct{ gi, ni, fail int }
 		var secs []sec
 		for gi, gr := range c.Forest {
@@ -221,6 +221,27 @@ func (engine) Generate(r *lib.Rng, tier string, i int) any {
 		if len(secs) > 0 {
 			x := secs[r.Intn(len(secs))]
 			c.Forest[x.gi].Nodes[x.ni].Fail = x.fail
+			// a fault while siblings are running: half of these cases run the graph again right
+			// after the failed run (sequentially), with the siblings of the failing node slowed
+			// down - a run that returns on the first error (eager mode) leaves nodes behind that
+			// still call ProcessState while the next run has started
+			if r.Chance(1, 2) {
+				c.Runs = r.Range(2, 3)
+				c.Concurrent = false
+				noLoop := true
+				for _, gr := range c.Forest {
+					noLoop = noLoop && gr.Loop == nil
+				}
+				if noLoop && r.Chance(2, 3) {
+					c.Forest[x.gi].Mode = "eager"
+				}
+				for ni := range c.Forest[x.gi].Nodes {
+					n := &c.Forest[x.gi].Nodes[ni]
+					if ni != x.ni && n.Sub < 0 && n.PS > 0 {
+						n.DelayUs = 100 + r.Intn(300)
+					}
+				}
+			}
 		}
 	}
 	if r.Chance(3, 10) {
